@@ -11,6 +11,7 @@ pub mod h_loop;
 pub mod h_expr;
 pub mod h_content;
 pub mod h_plat;
+pub mod h_locks;
 
 pub use vnd::*;
 
@@ -23,5 +24,6 @@ pub fn run_harness(name: &str) -> bool {
     if h_expr::run(name) { return true; }
     if h_content::run(name) { return true; }
     if h_plat::run(name) { return true; }
+    if h_locks::run(name) { return true; }
     false
 }
